@@ -1,4 +1,7 @@
 import GB.C14.Proofs
+import GB.C14.Atomic
+import GB.C14.ProofsDefault
+import GB.C06.Props
 /-
   C14 — property theorems.  `parseRPCName`, `routeGRPC`, `routeHTTPsvc` model
   routing/service_router.go (after fix D16), `setPath`/`parseTarget`/`httpName`/`webName` model what
@@ -237,3 +240,174 @@ example : Plain [47, 112, 46, 83, 47, 77] := by unfold Plain; decide
 /-- an escaped path is *not* read alike by the HTTP form (verbatim) and the gRPC-Web form (decoded) -/
 example : (parseTarget [47, 112, 37, 50, 69, 83, 47, 77]).map (fun u => (httpName u, webName u)) =
     some ([47, 112, 37, 50, 69, 83, 47, 77], [47, 112, 46, 83, 47, 77]) := by decide
+
+
+/-! ## First-claimant stability as an invariant, down to single sync.Map operations (for C11) -/
+
+/-- `n` owns `svc` (and the claim bookkeeping is consistent) -/
+def C14_Owns (n : Name) (svc : SvcName) (st : SvcState) : Prop :=
+  SInv0 st ∧ ∃ r, st.routes svc = some r ∧ r.target = n
+
+/-- an operation under which the owner neither closes nor drops the service -/
+def C14_KeepsOp (n : Name) (svc : SvcName) (op : Op) : Prop :=
+  op ≠ .close n ∧ ∀ d, op = .update n d → listed d.services svc
+
+/-- **Inductive invariant** (the form an LTS argument consumes): from ANY state in which `n` owns `svc` —
+    reachable ones included (`C14_owns_reachable`) — every operation that is neither `close n` nor an update of `n`
+    dropping `svc` leads to a state in which `n` still owns `svc`; whatever other targets claim, keep or release. -/
+theorem C14_owner_invariant (n : Name) (svc : SvcName) (st : SvcState) (op : Op)
+    (h : C14_Owns n svc st) (hk : C14_KeepsOp n svc op) : C14_Owns n svc (st.step op).1 := by
+  obtain ⟨inv, r, hr, hn⟩ := h
+  exact ⟨SInv0_step inv op, first_claimant_step inv n svc r hr hn op hk⟩
+
+theorem C14_owns_reachable (h : List Op) (n : Name) (svc : SvcName) (r : SvcRoute)
+    (hr : (SvcState.init.run h).routes svc = some r) (hn : r.target = n) :
+    C14_Owns n svc (SvcState.init.run h) :=
+  ⟨SInv0_run SInv0_init h, r, hr, hn⟩
+
+/-- **The same at the granularity of atomic map operations**: `stepTrace st op` lists the sync.Map after every single
+    LoadOrStore / Store / Delete the operation performs (and ends in the map of the model's step,
+    `C14_trace_ends_in_step`); in EVERY one of these intermediate maps `svc` is still mapped to an entry of `n`.
+    So a lock-free `routes.Load(svc)` interleaved anywhere inside another target's `UpdateDesc`/`Close` — or inside
+    the owner's own re-listing update — sees the owner: C11 may treat the add and delete phases as single steps
+    as far as foreign keys are concerned. -/
+theorem C14_owner_stable_atomic (n : Name) (svc : SvcName) (st : SvcState) (op : Op)
+    (h : C14_Owns n svc st) (hk : C14_KeepsOp n svc op) :
+    ∀ r' ∈ stepTrace st op, ∃ o, r' svc = some o ∧ o.target = n := by
+  obtain ⟨inv, r, hr, hn⟩ := h
+  exact owner_stable_atomic inv n svc r hr hn op hk
+
+/-- the traces are traces of the modelled operations: their last map is the map after the step -/
+theorem C14_trace_ends_in_step (st : SvcState) (d : Desc) (n : Name) :
+    (updateTrace st d).getLastD st.routes = (updateRoutes st d).routes ∧
+    (removeTrace st n).getLastD st.routes = (st.removeTarget n).routes := by
+  have happ : ∀ (A B : List RMap) (x : RMap), (A ++ B).getLastD x = B.getLastD (A.getLastD x) := by
+    intro A B x
+    cases B with
+    | nil => simp [List.getLastD]
+    | cons b bs =>
+      have : A ++ b :: bs ≠ [] := by simp
+      simp [List.getLastD_eq_getLast?, List.getLast?_append]
+  constructor
+  · unfold updateTrace updateRoutes
+    simp only
+    rw [happ, addLoopTrace_last d.name d.ver d.services 0 st.routes [], delLoopTrace_last]
+  · exact delLoopTrace_last [] _ st.routes
+
+/-! ### the seeded variant C14-m3 (Swap, then Store the old value back): kernel-checked witness -/
+
+/-- "a" owns "S"; "b" is watched -/
+def swapSt : SvcState := SvcState.init.run [.watch [97], .watch [98], .update [97] ⟨[97], 2, [⟨[83], []⟩]⟩]
+/-- the description with which "b" claims "S" too -/
+def swapDesc : Desc := ⟨[98], 3, [⟨[83], []⟩]⟩
+
+/-- Sequentially the variant is indistinguishable here: after b's update "S" is a's again, exactly as with the
+    real code … -/
+theorem C14_swap_variant_same_end_state :
+    (updateRoutesSwap swapSt swapDesc).routes [83] = some ⟨[97], 2, 0⟩ ∧
+    (updateRoutes swapSt swapDesc).routes [83] = some ⟨[97], 2, 0⟩ := by decide
+
+/-- … but between the `Swap` and the `Store` back there is a sync.Map state in which "S" belongs to "b":
+    the invariant `C14_owner_stable_atomic` fails for the variant (a concurrent `RouteGRPC(/S/M)` is sent to b). -/
+theorem C14_swap_variant_violates_stability :
+    (swapSt.routes [83] = some ⟨[97], 2, 0⟩) ∧
+    (addLoopSwapTrace swapDesc.name swapDesc.ver swapDesc.services 0 swapSt.routes).any
+      (fun r' => decide (r' [83] = some ⟨[98], 3, 0⟩)) = true := by decide
+
+/-- whereas every intermediate state of the real code keeps "S" with "a" (instance of the theorem, by evaluation) -/
+theorem C14_fixed_code_intermediate_ok :
+    (stepTrace swapSt (.update [98] swapDesc)).length = 1 ∧
+    (stepTrace swapSt (.update [98] swapDesc)).all (fun r' => decide (r' [83] = some ⟨[97], 2, 0⟩)) = true := by
+  decide
+
+/-! ## The two routers agree where both apply: default binding vs. the ServiceRouter's HTTP form -/
+
+/-- **`POST /pkg.Svc/Method` of a method without bindings**: let target `n`'s latest description `d` list service
+    `svc` at index `si` with a method at index `mi` that has no bindings and the RPC name `/svc/meth` (slash-free
+    parts, accepted by the template parser as two literals).  If `n` owns `svc` in the service table (e.g. the
+    service was never shared, `C06_service`), the pool has a connection for `n`, and no OTHER accepted POST binding
+    of a live target's latest description matches `/svc/meth` (`huniq`, as in `C03_default`), then after the same
+    history
+
+    * `PatternRouter.RouteHTTP` (C06 table + C03 matcher) returns the DEFAULT binding of that method: target `n`,
+      description version `d.ver`, index path `(si, mi, default)`, binding `POST /svc/meth`, no captures;
+    * `ServiceRouter.RouteHTTP` returns target `n`, the same description version `d.ver`, a service entry of `d`
+      named `svc`, the method name `/svc/meth` = the RPC name of that method, and the binding `POST /svc/meth`.
+
+    Same target, same description, same method name, same binding content. -/
+theorem C14_http_forms_agree_with_pattern_default
+    (parse : Bytes → Option C03.Tmpl) (hp : ParserOk parse) (pool : Name → Bool) (h : List Op)
+    (n : Name) (d : Desc) (si mi : Nat) (S : Service) (M : Method) (svc meth : Bytes)
+    (hd : (latestOf h).desc n = some d) (hS : d.services[si]? = some S) (hSn : S.name = svc)
+    (hM : S.methods[mi]? = some M) (hb : M.bindings = []) (hrpc : M.rpcName = slash :: svc ++ slash :: meth)
+    (ht : parse M.rpcName = some ⟨[.plain (.lit svc), .plain (.lit meth)], []⟩)
+    (h1 : svc ≠ C03.eof) (h2 : meth ≠ C03.eof) (h3 : ∀ c ∈ svc, c ≠ 47) (h4 : ∀ c ∈ meth, c ≠ 47)
+    (hpool : pool n = true)
+    (hown : ∃ ρ, (SvcState.init.run h).routes svc = some ρ ∧ ρ.target = n)
+    (huniq : ∀ e ∈ tableOfGroups parse POST
+        ((orderOf (PatState.init.run (validC parse) h) POST).filterMap (specGroup (validC parse) (latestOf h) POST)),
+      (∃ b, C03.PathMatches e.2.2 [svc, meth] b) →
+        e = ((n, d.ver, ⟨si, mi, none, POST, M.rpcName⟩), POST, ⟨[.plain (.lit svc), .plain (.lit meth)], []⟩)) :
+    routeHTTPm parse pool (PatState.init.run (validC parse) h).static POST M.rpcName =
+        .found n d.ver ⟨si, mi, none, POST, M.rpcName⟩ [] ∧
+    ∃ j S', routeHTTPsvcName pool (SvcState.init.run h).routes POST M.rpcName =
+        .ok n d.ver j M.rpcName POST M.rpcName ∧ d.services[j]? = some S' ∧ S'.name = svc := by
+  have hv : validC parse M.rpcName = true := validC_of_two_lits hp ht
+  have hsplit : C03.splitSlash (svc ++ 47 :: meth) = [svc, meth] := by
+    rw [C03.splitSlash_append _ h3, C03.splitSlash_noslash h4]
+  constructor
+  · -- pattern side
+    have hpath : M.rpcName = 47 :: (svc ++ 47 :: meth) := hrpc
+    have e : routeHTTPm parse pool (PatState.init.run (validC parse) h).static POST M.rpcName =
+        routeHTTPm parse pool (PatState.init.run (validC parse) h).static POST (47 :: (svc ++ 47 :: meth)) := by
+      rw [← hpath]
+    rw [e, C06_pattern_with_matcher parse hp pool h POST (svc ++ 47 :: meth), hsplit]
+    refine ⟨hpool, ?_⟩
+    -- the default entry is in the table
+    have hr0 := default_route_mem (validC parse) d hS hM hb hv
+    have hin : n ∈ orderOf (PatState.init.run (validC parse) h) POST := by
+      have inv := PInv_run (PInv_init (validC parse)) h
+      rw [mem_order_iff_linked inv, inv.links n POST]
+      have hmem : (⟨si, mi, none, POST, M.rpcName⟩ : Route) ∈
+          (allRoutes (validC parse) d).filter (fun r => decide (r.httpMethod = POST)) :=
+        List.mem_filter.mpr ⟨hr0, by simp⟩
+      have hd' : (List.foldl Latest.step Latest.init h).desc n = some d := hd
+      simp only [specGroup, hd', built]
+      cases hf : (allRoutes (validC parse) d).filter (fun r => decide (r.httpMethod = POST)) with
+      | nil => rw [hf] at hmem; cases hmem
+      | cons a as => simp
+    have hentry := (C06_matcher_table_entries parse (latestOf h)
+      (orderOf (PatState.init.run (validC parse) h) POST) POST
+      ((n, d.ver, ⟨si, mi, none, POST, M.rpcName⟩), POST, ⟨[.plain (.lit svc), .plain (.lit meth)], []⟩)).mpr
+      ⟨n, d, _, _, hin, hd, hr0, rfl, ht, rfl⟩
+    obtain ⟨i, b, hf⟩ := C03.exists_firstMatch _ POST [svc, meth]
+      ⟨_, hentry, rfl, [], C03.default_pathMatches h1 h2⟩
+    obtain ⟨pre, t, post', htbl, hm, hpre⟩ := hf
+    have he := huniq (i, POST, t) (by rw [htbl]; simp) ⟨b, hm⟩
+    simp only [Prod.mk.injEq] at he
+    obtain ⟨hi, _, ht'⟩ := he
+    subst hi; subst ht'
+    have hb0 : b = [] := pathMatches_two_lits hm
+    subst hb0
+    exact ⟨pre, _, post', htbl, hm, hpre⟩
+  · -- service side
+    obtain ⟨ρ, hρ, hρn⟩ := hown
+    have hlat := (SInv_run SInv_init h).latest _ _ hρ
+    rw [hρn] at hlat
+    obtain ⟨d', hd', j, hj, hρe⟩ := specSvcRoute_some hlat
+    have hdd : d' = d := by
+      have : (latestOf h).desc n = some d' := hd'
+      rw [hd] at this; exact (Option.some.inj this).symm
+    subst hdd
+    obtain ⟨k, S', hjk, hk, hSn'⟩ := lastIdx_getElem svc d'.services 0 j hj
+    have hj' : j = k := by omega
+    subst hj'
+    refine ⟨j, S', ?_, hk, hSn'⟩
+    have hnames : Names M.rpcName svc meth := by
+      rw [hrpc]
+      refine ⟨by simp [strip], ?_⟩
+      intro hm; exact h3 _ hm rfl
+    have hparse := (parse_iff M.rpcName svc meth).mpr hnames
+    have hpool' : pool ρ.target = true := by rw [hρn]; exact hpool
+    have hcanon : canonicalRPCName svc meth = M.rpcName := by rw [hrpc]; rfl
+    simp [routeHTTPsvcName, hparse, hρ, hpool', hcanon, hρe, hpool]
